@@ -69,6 +69,14 @@ def _eng(text, v, api):
     return ('ok', norm(describe(val)))
 
 
+def c16_key(feat, mk):
+    """partial application stores the bound arguments on the syntax token and evaluates them lazily (listed
+    defect): WHICH error code a program then ends with is accidental, so the code is not part of the key"""
+    if feat.startswith('partial-') and mk.startswith('err:'):
+        mk = 'err'
+    return 'C16/%s/%s' % (feat, mk)
+
+
 def mismatch_kind(o, exp=None):
     if o[0] == 'ok':
         got = o[1]
@@ -1307,7 +1315,7 @@ def report_program(ast, v, api, ip, exp, o, out):
     feat = feature_of(feats, mk)
     if feat.startswith('fold-zero') and mk.startswith('err:'):
         mk = 'error'      # XPTY0004 directly, FOAP0001 / FORG0006 ... when wrapped by an enclosing call
-    out.fail('C16/%s/%s' % (feat, mk),
+    out.fail(c16_key(feat, mk),
              {'expr': render(small), 'expected': exp2, 'got': list(o2), 'features': sorted(feats),
               'original': text[:400]})
 
@@ -1349,7 +1357,7 @@ def check_equiv(case, out):
                         feat, mk = ('fold-zero-multi' if n > 1 else 'fold-zero-empty'), 'error'
                 except (IndexError, TypeError):
                     pass
-            out.fail('C16/%s/%s' % (feat, mk),
+            out.fail(c16_key(feat, mk),
                      {'lhs': lt, 'rhs': rts, 'expected': exp, 'got': list(o)})
     # the direct side against the model, when the model covers it
     r_ast, rt = case['rhs'][0], rts[0]
